@@ -6,7 +6,7 @@ from common import *
 PID = "C07"
 PROPS = "props/C07.v"
 GOTAB = ["code39.go", "code93.go"]
-GOFILES = ["code39.go", "code93.go"]
+GOFILES = ["code39.go", "code93.go", "all.go"]
 EXTRACT = ["base", "utf8", "code39", "code93"]
 HANDLERS = ["h_code39.ml", "h_code93.ml"]
 
@@ -212,3 +212,9 @@ RULE = ("basic mode: exhaustive over all texts of length 0..2 over the 43 charac
         "decoder/encoder.  Oracle: the extracted reference decoder applied to the implementation's pixel row must "
         "return the input text; Content() must be the printed data characters and CheckSum() the sum mod 43 read "
         "from the row; kind/bounds those of a one-row symbol.  non-trivial = an accepted text (symbol produced); distinct = distinct case line")
+
+
+def extra(rep, impl_exe, model_exe, rng, tier):
+    # returned barcodes must remain what they were when other symbols are encoded afterwards
+    import held
+    return held.held_phase(rep, impl_exe, rng, ['c39 0 0', 'c39 1 1', 'c93 0 0', 'c93 1 0', 'c93 1 1'], n=10 if tier == "quick" else 80)
